@@ -62,9 +62,9 @@ PROPS = {
                      "fully symbolic GF(2^16) matrices are outside the claim: symbolic matrices have 0/1 entries, 16-bit symbolic data appears only on the right-hand side"],
         jobs=[
             J("gf2p16", "C11_inverse_01", bound="every 0/1 matrix of dimension 1..3 (symbolic bits)", must_reach=["singular", "nonsingular"]),
-            J("gf2p16", "C11_rowreduce_01", bound="every 0/1 matrix of dimension 1..2 with a fully symbolic n x 2 right-hand side", must_reach=["nonsingular"]),
+            J("gf2p16", "C11_rowreduce_01", bound="every 0/1 matrix of dimension 1..2 with a fully symbolic n x k right-hand side, k 1..3", must_reach=["nonsingular"]),
             J("gf2p16", "C11_rowreduce_01_n3", tier="thorough", bound="every 0/1 matrix of dimension 1..3 with symbolic right-hand side"),
-            J("gf2p16", "C11_rowreduce_concrete", bound="10 concrete structured matrices (swaps at every pivot, non-unit pivots, rank deficient) x fully symbolic n x 2 right-hand side", must_reach=["singular", "nonsingular"]),
+            J("gf2p16", "C11_rowreduce_concrete", bound="10 concrete structured matrices (swaps at every pivot, non-unit pivots, rank deficient) x fully symbolic n x k right-hand side, k 1..5 (narrower, equal, wider)", must_reach=["singular", "nonsingular"]),
             J("gf2p16", "C11_times", bound="2x2 by 2x2 fully symbolic"),
         ],
     ),
@@ -77,6 +77,8 @@ PROPS = {
             J("rsec16", "C07_vandermonde_elem", bound="3x3 block"),
             J("rsec16", "C07_cauchy", bound="d 1..3, p 1..2, every subset of missing data and parity shards, shard length 2..4 bytes symbolic, goroutines 1..2", must_reach=["not-enough", "reconstructed"]),
             J("rsec16", "C07_vandermonde", bound="d 1..3, p 1..2, every erasure subset, shard length 2..4 bytes, goroutines 1..2; singularity decided by an independent Gaussian elimination", must_reach=["not-enough", "reconstructed"]),
+            J("rsec16", "C07_cauchy_gap", bound="d 1..2, p 1..3, every erasure subset (gaps between the used parity rows), 2-byte shards"),
+            J("rsec16", "C07_vandermonde_gap", bound="d 1..2, p 1..3, every erasure subset, 2-byte shards"),
             J("rsec16", "C07_cauchy_big", tier="thorough", bound="d 1..5, p 1..3, every erasure subset, shard length 2/18/34 bytes, goroutines 1..3", timeout=14000),
             J("rsec16", "C07_vandermonde_big", tier="thorough", bound="d 1..5, p 1..3, every erasure subset, shard length 2/18/34 bytes, goroutines 1..3", timeout=14000),
         ],
